@@ -9,6 +9,7 @@ TRUSTED_BASE = [
 ]
 
 BRANCH_NAMES = {
+    'reportsflow': ['no_reports', 'reports', 'error', 'panic'],
     'mercagg': ['timestamp', 'price_ok', 'price_err', 'fee_ok', 'fee_err', 'maxfints_ok', 'maxfints_err', 'maxfinblock_ok',
                 'maxfinblock_err', 'status_ok', 'status_err', 'latestblock_ok', 'latestblock_err'],
     'agg': ['too_few', 'plain_median', 'timestamped_median', 'quote', 'mode_value', 'mode_error', 'other_error'],
@@ -324,7 +325,7 @@ PROPS['C17'] = dict(
 BRANCH_NAMES['nopanic'] = ['validate', 'outcome', 'reports', 'observation', 'mercury', 'decoders', 'evm-nil-values', 'panics']
 PROPS['C11'] = dict(
     level='proof',
-    projections=[dict(name='nopanic', spec_index=1, n_quick=3000, n_thorough=100000),
+    projections=[dict(name='reportsflow', spec_index=1, n_quick=400, n_thorough=10000), dict(name='nopanic', spec_index=1, n_quick=3000, n_thorough=100000),
                  dict(name='evmcodec', spec_index=3, strict_index=4, n_quick=1500, n_thorough=40000)],
     rule="nopanic: under recover(): ValidateObservation, Outcome (observations first filtered by the real ValidateObservation; previous outcome "
          "random / structure-aware mutated / valid with missing aggregates; retirement report with and without channels), Reports (telemetry "
